@@ -69,7 +69,7 @@ def replay_state(chk, st, table):
     last = hist[-1] if hist else default
     first_from = hist[-2] if len(hist) >= 2 else default
     obsv = p._Spectrum__psd if hasattr(p, '_Spectrum__psd') else p.psd
-    obsv = np.asarray(obsv) / scale if isinstance(obsv, np.ndarray) else obsv
+    obsv = np.asarray(obsv, dtype=float) / scale if obsv is not None else obsv
     kind = 'direct' if len(hist) <= 1 else 'path'
     if p.sides != last:
         chk.violation('C06:sides-attr:%s:%s' % (dt, par), 'sides reads %s after assigning %s' % (p.sides, last), case)
@@ -113,7 +113,7 @@ def replay_state(chk, st, table):
                 chk.violation('C06:get_converted:%s->%s:%s:%s:raises' % (last, s, dt, par),
                               'get_converted_psd(%s) from %s raises %r' % (s, last, res), case)
                 continue
-            res = np.asarray(res) / scale if isinstance(res, np.ndarray) else res
+            res = np.asarray(res, dtype=float) / scale if res is not None else res
             b2 = cmp_vec(res, e2, tol=1e-12, name='converted')
             if b2:
                 lenbad = np.asarray(res).shape != e2.shape
@@ -121,7 +121,7 @@ def replay_state(chk, st, table):
                               'get_converted_psd(%s) from %s (NFFT=%d, basis %d) is %s, expected %s'
                               % (s, last, n, b, np.asarray(res).tolist(), e2.tolist()), dict(case, target=s, observed=res))
             # purity
-            after = np.asarray(p._Spectrum__psd) / scale
+            after = np.asarray(p._Spectrum__psd if hasattr(p, '_Spectrum__psd') else p.psd) / scale
             if p.sides != last or cmp_vec(after, exp, tol=1e-12):
                 chk.violation('C06:get_converted:mutates:%s->%s:%s' % (last, s, dt),
                               'get_converted_psd(%s) changed the object' % s, dict(case, target=s))
@@ -154,8 +154,8 @@ def check_helpers(chk, table, maxn):
             scale = scale_for(n + b) if (n + b) % 3 else 1.0
             case = {'helper': hname, 'n': n, 'dt': dt, 'input': src, 'expect': exp, 'scale': scale}
             ok, res = call_guard(getattr(tools, hname), src * scale)
-            if ok and isinstance(res, np.ndarray):
-                res = res / scale
+            if ok and res is not None:
+                res = np.asarray(res, dtype=float) / scale
             chk.evaluations += 1
             if not ok:
                 if isinstance(res, AssertionError) and n % 2 == 1:
